@@ -23,7 +23,11 @@ func c02Profile(tier string) *eng.Profile {
 	}
 	ops = append(ops, core.Op{Kind: "tick"}, core.Op{Kind: "reopen"},
 		up(core.Call{F: "Put", B: "b", K: "a", V: "m"}, core.Call{F: "Put", B: "b", K: "d", V: "n"}),
-		up(core.Call{F: "Put", B: "b", K: "b", V: "m"}, core.Call{F: "Delete", B: "b", K: "c"}))
+		up(core.Call{F: "Put", B: "b", K: "b", V: "m"}, core.Call{F: "Delete", B: "b", K: "c"}),
+		// three records of one transaction: with three records per segment the middle one is neither
+		// at offset 0 nor the record carrying the commit mark
+		up(core.Call{F: "Put", B: "b", K: "a", V: "p"}, core.Call{F: "Put", B: "b", K: "c", V: "q"}, core.Call{F: "Put", B: "b", K: "d", V: "r"}),
+		up(core.Call{F: "PutTS", B: "b", K: "b", V: "f", TTL: 2, TS: 3}))
 	p := &eng.Profile{ID: "C02", Name: "sparse",
 		// seg=100: two records per segment; seg=150: three, so that a sealed segment's key range can
 		// strictly contain a scanned range that still holds one of its keys
@@ -78,9 +82,9 @@ func c03Profile(tier string) *eng.Profile {
 		qs = append(qs, core.Call{F: "PrefixScan", B: "b", K: pre, I: 0, J: 0})
 	}
 	p := &eng.Profile{ID: "C03", Name: "paging",
-		Cfgs: []core.Cfg{{Mode: core.KV, Seg: 100}, {Mode: core.K, Seg: 100}, {Mode: core.S, Seg: 100}},
-		Ops:  func(core.Cfg) []core.Op { return ops },
-		Obs:  func(core.Cfg) []core.Call { return qs },
+		Cfgs:  []core.Cfg{{Mode: core.KV, Seg: 100}, {Mode: core.K, Seg: 100}, {Mode: core.S, Seg: 100}},
+		Ops:   func(core.Cfg) []core.Op { return ops },
+		Obs:   func(core.Cfg) []core.Call { return qs },
 		Depth: 3,
 		Judge: func(c *eng.Ctx) {
 			dirFeatures(c)
